@@ -13,31 +13,33 @@ import common as C
 def mc_cfg(tier):
     if tier == "quick":
         return dict(dim=2, rounds=2, counts="{2, 4}", init0="OkOnly", initr="OkOnly")
-    return dict(dim=2, rounds=2, counts="{2, 3, 6}", init0="AllInit", initr="OkNan")
+    return dict(dim=3, rounds=2, counts="{2, 4}", init0="OkOnly", initr="OkOnly")
 
 
 def histories(chk, tier):
     p = mc_cfg(tier)
     summ_all = {"cases": 0, "checks": 0, "kinds": {}, "failures": [], "stat": {}}
     runs = [("windows", p)]
-    if tier == "quick":
-        # every initialisation class, one window
-        runs.append(("init", dict(dim=2, rounds=1, counts="{2, 4}", init0="AllInit", initr="OkNan")))
+    # every initialisation class, one window
+    runs.append(("init", dict(dim=2, rounds=1, counts="{2, 4}" if tier == "quick" else "{2, 3, 6}", init0="AllInit", initr="OkNan")))
+    if tier != "quick":
+        runs.append(("sizes", dict(dim=2, rounds=2, counts="{2, 3, 6}", init0="OkOnly", initr="OkNan")))
     for name, q in runs:
         cfg = os.path.join(C.WORK, "c08_%s.cfg" % name)
         with open(cfg, "w") as f:
             f.write("CONSTANTS\n  Dim = %d\n  Rounds = %d\n  Counts = %s\n  Cls0 <- AllCls\n  RestPairs <- Rest3\n"
                     "  InitCls0 <- %s\n  InitClsRest <- %s\n  Rules <- AllRules\nSPECIFICATION MMSpec\nINVARIANTS MMInv Emit\n"
                     "CHECK_DEADLOCK FALSE\n" % (q["dim"], q["rounds"], q["counts"], q["init0"], q["initr"]))
-        r = C.tlc("MC_MassMatrixUpdate.tla", cfg, "c08_" + name, timeout=7200, workers=8)
+        outp = os.path.join(C.WORK, "c08_%s.out" % name)
+        r = C.tlc("MC_MassMatrixUpdate.tla", cfg, "c08_" + name, timeout=7200, workers=8, out_path=outp)
         C.require_tlc_ok(r, "MassMatrixUpdate")
         chk.add_tlc(r, "update_mc_" + name)
         if r["violated"]:
             chk.violation("spec:massmatrix", "MassMatrixUpdate invariant %s violated" % r["violated"], r["out"][-3000:])
             continue
-        lines = C.replay_lines(r["out"])
         summ = os.path.join(C.WORK, "c08_%s.json" % name)
-        C.vh(["replay-massmatrix", "-", summ], stdin="\n".join(lines) + "\n", timeout=7200)
+        C.vh(["replay-massmatrix", outp, summ], timeout=7200)
+        os.remove(outp)
         s = json.load(open(summ))
         if s["cases"] == 0:
             raise C.ToolError("no histories were replayed (%s)" % name)
